@@ -374,8 +374,8 @@ func (rp *Replayer) Replay(c *Case, keep bool) (final string, orig string) {
 		rp.R.Count("signed_verified", 1)
 	}
 	rp.R.Eval(signedOnce)
-	if signedOnce && len(c.Rounds) > 1 {
-		rp.R.Sample(c)
+	if signedOnce {
+		rp.R.Sample(c) // (the result keeps the first few)
 	}
 	if signedOnce {
 		return cur, orig
